@@ -693,9 +693,10 @@ impl Update {
         } else {
             Vec::new()
         };
-        // Update the rows.
-        for value_refs in rows.iter_mut() {
-            let should_update = match self.condition {
+        // Determine which rows to update.
+        let mut should_update = Vec::<bool>::with_capacity(rows.len());
+        for value_refs in rows.iter() {
+            should_update.push(match self.condition {
                 Some(ref expr) => {
                     let values: Vec<Value> = value_refs
                         .iter()
@@ -705,16 +706,69 @@ impl Update {
                     expr.eval(&row).to_bool()
                 }
                 None => true,
-            };
-            if should_update {
-                for (column_name, value) in self.updates.iter() {
-                    let index =
-                        table.index_for_column_name(column_name).unwrap();
+            });
+        }
+        // If any primary key column is being assigned, make sure that the
+        // primary keys will still be unique afterwards.
+        let key_indices = table.primary_key_indices();
+        let update_indices: Vec<usize> = self
+            .updates
+            .iter()
+            .map(|(name, _)| table.index_for_column_name(name).unwrap())
+            .collect();
+        let updates_keys =
+            update_indices.iter().any(|index| key_indices.contains(index));
+        if updates_keys {
+            let mut keys_set = HashSet::<Vec<Value>>::new();
+            for (value_refs, &update) in rows.iter().zip(should_update.iter())
+            {
+                let mut keys: Vec<Value> = key_indices
+                    .iter()
+                    .map(|&index| value_refs[index].to_value(string_pool))
+                    .collect();
+                if update {
+                    for (&index, (_, value)) in
+                        update_indices.iter().zip(self.updates.iter())
+                    {
+                        if let Some(pos) =
+                            key_indices.iter().position(|&key| key == index)
+                        {
+                            keys[pos] = value.clone().into_stored();
+                        }
+                    }
+                }
+                if keys_set.contains(&keys) {
+                    already_exists!(
+                        "Cannot update table {:?}: multiple rows would have \
+                         key {:?}",
+                        self.table_name,
+                        keys
+                    );
+                }
+                keys_set.insert(keys);
+            }
+        }
+        // Update the rows.
+        for (value_refs, &update) in rows.iter_mut().zip(should_update.iter())
+        {
+            if update {
+                for (&index, (_, value)) in
+                    update_indices.iter().zip(self.updates.iter())
+                {
                     let value_ref = &mut value_refs[index];
                     value_ref.remove(string_pool);
                     *value_ref = ValueRef::create(value.clone(), string_pool);
                 }
             }
+        }
+        // Keep the rows sorted by primary key.
+        if updates_keys {
+            rows.sort_by_cached_key(|value_refs| {
+                key_indices
+                    .iter()
+                    .map(|&index| value_refs[index].to_value(string_pool))
+                    .collect::<Vec<Value>>()
+            });
         }
         // Write the table back out to the file.
         let stream = comp.create_stream(&stream_name)?;
